@@ -8,6 +8,24 @@ CHECKS = {
  "C01": dict(level="exploration", engine="E-HIST", technique="runtime monitoring: differential byte oracle (restore vs checkpointed source copy) at every acknowledgement of generated histories",
    text="Every acknowledged sync in seeded random histories over the full C01 alphabet and configuration lattice is followed by a real Restore from the replica alone; the output is compared byte-for-byte with SQLite's own checkpointed copy of the source. Held on the histories explored, not proven.",
    note="file replica only; modernc SQLite as reference for committed state; mask limited to change counter, version bytes and the _litestream_seq root page", ref="§4 C01"),
+ "C02": dict(level="exploration", engine="E-HIST", technique="runtime monitoring: ledger/dump-hash oracle over Restore(TXID=n) for every TXID after generated sequential interleavings and live concurrent-writer runs",
+   text="After each generated history (syncs/checkpoints/snapshots/compactions while an application transaction with spilled uncommitted frames is open; live writer goroutine against monitor-driven litestream; checkpoint-then-snapshot stress) every TXID listed at any level is restored and must be exactly one committed application state, monotone in n, level 0 gapless from 1. Held on the executions produced.",
+   note="sha256 of the logical dump identifies a committed state; concurrent runs are real goroutine schedules (not enumerated); C12 applies the same oracle under the race detector", ref="§4 C02"),
+ "C04": dict(level="exploration", engine="E-HIST", technique="runtime monitoring: differential byte oracle at the first acknowledgement after generated disturbances (stop/start, restart, offline activity, db replacement, meta loss/reset)",
+   text="Histories = prefix + disturbance(s) from the cross product named by the property + suffix; the first acknowledged sync after each disturbance must restore byte-for-byte to the source, a successful sync must leave the replica at the database position, and level-0 files at or below the previous replica maximum must never be replaced. Held on the histories explored.",
+   note="the application is the only writer while litestream is down; file replica only", ref="§4 C04"),
+ "C06": dict(level="exploration", engine="E-HIST", technique="runtime monitoring: independent re-composition of archived level-0 files compared with every compacted/snapshot file and with Restore(TXID=n)",
+   text="Every file at level>=1 produced in generated histories (1..8 level layouts, DB.Compact and Store.CompactDB, shrinking databases, in-chain full snapshots) is decoded and compared page-for-page, Commit and timestamp with the overlay of the archived level-0 files of its range; levels must be contiguous; Restore(TXID=n) must equal image_n before and after each compaction.",
+   note="ltx.Decoder (framing/LZ4/checksums) trusted; overlay logic independent of ltx.Compactor", ref="§4 C06"),
+ "C10": dict(level="fault_enumeration", engine="E-FAULT", technique="runtime monitoring under fault injection: single corruptions at enumerated offsets of every plan file and read-fault schedules, restore result compared with reference bytes",
+   text="For replicas produced by histories: delete/truncate/flip at enumerated offsets of every plan file, read-fault schedules within and beyond the retry budget, checksum-valid payload corruption (integrity check), pre-existing output paths. Restore must return an error with no output, or the exact reference bytes; a dying process is a violation.",
+   note="pinned target TXID; quick tier samples offsets of large files (structure boundaries +-8 plus PRNG sample), thorough enumerates every offset of small files", ref="§4 C10"),
+ "C13": dict(level="exploration", engine="E-HIST", technique="runtime monitoring: WAL frame-count bound (reference WAL decoder) after every successful sync and LTX-file count across idle syncs",
+   text="Generated write/sync histories over the threshold lattice; after every successful sync with nothing pinned SQLite's mxFrame must be <= the lowest configured threshold; 10 idle syncs may create at most 6 files and none in syncs 7..10.",
+   note="frames counted up to the last valid commit frame of the current WAL generation", ref="§4 C13"),
+ "C19": dict(level="exploration", engine="E-GEN", technique="runtime monitoring: generated v0.3.x layouts restored by the real code and compared with a reference recomputed by real SQLite from the generator's records",
+   text="Legacy layouts generated from real SQLite histories (several generations, snapshots at several indices, WAL files split at arbitrary offsets, any one segment or index removed, all planted times, mixed with current-format replicas); the restored bytes must equal the state computed independently from the generator's records, gaps must produce errors, format arbitration must pick the more recent eligible backup.",
+   note="removal of the last segment of a non-final index is undetectable from a 0.3.x listing and is only counted; planted mtimes", ref="§4 C19"),
 }
 
 # properties not (yet) claimed: id -> reason
